@@ -446,7 +446,12 @@ func cmdTranslate(repo, outDir string) int {
 		fmt.Println("translate: facts: ", err)
 		return 2
 	}
-	hows := []string{factsMsg}
+	rulesMsg, err := writeRules(outDir, repo)
+	if err != nil {
+		fmt.Println("translate: rules: ", err)
+		return 2
+	}
+	hows := []string{factsMsg, rulesMsg}
 	for _, p := range predNames {
 		hows = append(hows, p+"="+how[p]+":"+strconv.Itoa(len(tabs[p])))
 	}
